@@ -111,8 +111,9 @@ def run(pid: str, index: Index, base_ctx, seed: int = 0) -> dict:
             results = [_one(j) for j in jobs]
     wres = [r for r in results if r[0] == "w"]
     tres = [r for r in results if r[0] == "t"]
-    killed = [r for r in wres if r[2] in ("killed", "analysis-error")]
-    vac = [f"{r[1]} ({r[2]}{': ' + str(r[3]) if r[3] else ''})" for r in wres if r[2] in ("survived", "wrong-rule", "crash")]
+    killed = [r for r in wres if r[2] == "killed"]
+    # a witness that only makes the analysis fail (exit 2) is not a detection: the check would be "broken", not red
+    vac = [f"{r[1]} ({r[2]}{': ' + str(r[3]) if r[3] else ''})" for r in wres if r[2] in ("survived", "wrong-rule", "crash", "analysis-error")]
     unapp = [r[1] for r in wres if r[2] == "unapplicable"]
     unstable = [f"{r[1]} {r[3]}" for r in tres if r[2] in ("unstable", "crash", "analysis-error")]
     min_app = getattr(mod, "MIN_APPLICABLE", max(1, len(witnesses) // 2)) if witnesses else 0
